@@ -26,7 +26,7 @@ ANCHORS = ["coxeter.shapes.convex_polygon:ConvexPolygon.distance_to_surface",
 REQUIRED_MONITORS = ["Circle.distance_to_surface", "Ellipse.distance_to_surface", "ConvexPolygon.distance_to_surface",
                      "ConvexSpheropolygon.distance_to_surface", "argument-unchanged"]
 REQUIRED_CLASSES = ["poly:regular", "poly:irregular", "poly:axis-aligned", "sphero:r=0", "sphero:r>0", "Ellipse", "Circle",
-                    "angles:ndarray:f", "angles:ndarray:i", "angles:list:int", "angles:list:float", "angles:tuple:float", "history:aged-object", "curved:extreme-units", "normal:+z", "normal:-z", "angles:2-D"]
+                    "angles:ndarray:f", "angles:ndarray:i", "angles:list:int", "angles:list:float", "angles:tuple:float", "history:aged-object", "curved:extreme-units", "normal:+z", "normal:-z", "angles:2-D", "poly:extreme-units"]
 
 
 def ncases(tier):
@@ -172,6 +172,10 @@ def run_case(i, rng, rec, tier, state):
         else:
             xy, pk = gen.convex_polygon_2d(rng, int(rng.integers(3, 31)), regular=False), "irregular"
         xy = xy * float(np.exp(rng.uniform(-1.5, 1.5)))
+        u = gen.unit_factor(rng)
+        if u != 1.0:
+            xy = xy * u              # nanometres written in metres ... (offsets below are relative to the size)
+            rec.cls("poly:extreme-units")
         if pk != "axis-aligned" and rng.random() < 0.7:
             t = rng.uniform(0, 2 * np.pi)
             xy = xy @ np.array([[math.cos(t), -math.sin(t)], [math.sin(t), math.cos(t)]]).T
